@@ -80,6 +80,7 @@ fn replay(args: &[String]) {
         use_sched: flag(args, "--sched"),
         events: flag(args, "--events"),
         via_fs: flag(args, "--via-fs"),
+        dirty_out: flag(args, "--dirty-out"),
     };
     let style_seed: Option<u64> = arg(args, "--style-seed").and_then(|s| s.parse().ok());
     let timeout_ms: u64 = arg(args, "--timeout-ms").and_then(|s| s.parse().ok()).unwrap_or(10_000);
